@@ -8,6 +8,7 @@ import (
 	"encoding/json"
 	"fmt"
 	"go/ast"
+	"go/constant"
 	"go/token"
 	"go/types"
 	"os"
@@ -16,6 +17,7 @@ import (
 	"strings"
 	"time"
 
+	"golang.org/x/tools/go/ast/astutil"
 	"golang.org/x/tools/go/packages"
 )
 
@@ -103,7 +105,175 @@ func Load(patterns ...string) (*Program, error) {
 		return nil, fmt.Errorf("type-check of %s failed: %s", repo, strings.Join(errs, "; "))
 	}
 	sort.Slice(p.All, func(i, j int) bool { return p.All[i].PkgPath < p.All[j].PkgPath })
+	for _, pk := range p.All {
+		Normalise(pk)
+	}
 	return p, nil
+}
+
+// Normalise rewrites, in the in-memory syntax only, spellings that mean the same into one form, so that no rule
+// depends on which one the source uses:
+//
+//	x = x + e, x = e + x (numbers)  →  x += e        x = x - e  →  x -= e
+//	c OP x with a constant (or nil) on the left of a comparison  →  x OP' c
+//
+// Nodes are modified in place; the recorded types stay valid (operands keep their identity).
+func Normalise(pk *packages.Package) {
+	info := pk.TypesInfo
+	if info == nil {
+		return
+	}
+	flip := map[token.Token]token.Token{token.LSS: token.GTR, token.GTR: token.LSS, token.LEQ: token.GEQ, token.GEQ: token.LEQ, token.EQL: token.EQL, token.NEQ: token.NEQ}
+	isConstOrNil := func(e ast.Expr) bool {
+		if tv, ok := info.Types[e]; ok && (tv.Value != nil || tv.IsNil()) {
+			return true
+		}
+		return false
+	}
+	isNumeric := func(e ast.Expr) bool {
+		t := info.TypeOf(e)
+		if t == nil {
+			return false
+		}
+		b, ok := t.Underlying().(*types.Basic)
+		return ok && b.Info()&types.IsNumeric != 0
+	}
+	same := func(a, b ast.Expr) bool { return types.ExprString(a) == types.ExprString(b) && pureExpr(a) }
+	boolT := types.Typ[types.Bool]
+	isBoolConst := func(e ast.Expr) (val, ok bool) {
+		tv, found := info.Types[e]
+		if !found || tv.Value == nil || tv.Value.Kind() != constant.Bool {
+			return false, false
+		}
+		return constant.BoolVal(tv.Value), true
+	}
+	negCmp := map[token.Token]token.Token{token.LSS: token.GEQ, token.GEQ: token.LSS, token.GTR: token.LEQ, token.LEQ: token.GTR, token.EQL: token.NEQ, token.NEQ: token.EQL}
+	notFloat := func(e ast.Expr) bool {
+		t := info.TypeOf(e)
+		if t == nil {
+			return false
+		}
+		b, ok := t.Underlying().(*types.Basic)
+		return !ok || b.Info()&(types.IsFloat|types.IsComplex) == 0
+	}
+	mkNot := func(e ast.Expr) ast.Expr {
+		u := &ast.UnaryExpr{OpPos: e.Pos(), Op: token.NOT, X: e}
+		info.Types[u] = types.TypeAndValue{Type: boolT}
+		return u
+	}
+	for pass := 0; pass < 4; pass++ {
+		changed := false
+		for i, f := range pk.Syntax {
+			res := astutil.Apply(f, nil, func(c *astutil.Cursor) bool {
+				switch x := c.Node().(type) {
+				case *ast.AssignStmt:
+					if x.Tok == token.ASSIGN && len(x.Lhs) == 1 && len(x.Rhs) == 1 && isNumeric(x.Lhs[0]) {
+						if b, ok := unparen(x.Rhs[0]).(*ast.BinaryExpr); ok {
+							switch {
+							case b.Op == token.ADD && same(x.Lhs[0], b.X):
+								x.Tok, x.Rhs = token.ADD_ASSIGN, []ast.Expr{b.Y}
+							case b.Op == token.ADD && same(x.Lhs[0], b.Y):
+								x.Tok, x.Rhs = token.ADD_ASSIGN, []ast.Expr{b.X}
+							case b.Op == token.SUB && same(x.Lhs[0], b.X):
+								x.Tok, x.Rhs = token.SUB_ASSIGN, []ast.Expr{b.Y}
+							case b.Op == token.ADD:
+								// x = x + a + b: the leftmost operand of the sum
+								var chain []*ast.BinaryExpr
+								cur := b
+								for {
+									chain = append(chain, cur)
+									nx, ok := unparen(cur.X).(*ast.BinaryExpr)
+									if !ok || nx.Op != token.ADD {
+										break
+									}
+									cur = nx
+								}
+								last := chain[len(chain)-1]
+								if len(chain) > 1 && same(x.Lhs[0], last.X) {
+									// drop the leftmost operand: its parent becomes its right operand
+									parent := chain[len(chain)-2]
+									parent.X = last.Y
+									x.Tok = token.ADD_ASSIGN
+								}
+							}
+						}
+					}
+				case *ast.BinaryExpr:
+					if op, ok := flip[x.Op]; ok && isConstOrNil(x.X) && !isConstOrNil(x.Y) {
+						x.X, x.Y, x.Op = x.Y, x.X, op
+					}
+					// b == false → !b, b == true → b, b != false → b, b != true → !b
+					if x.Op == token.EQL || x.Op == token.NEQ {
+						if v, ok := isBoolConst(x.Y); ok {
+							if _, both := isBoolConst(x.X); !both {
+								if v == (x.Op == token.EQL) {
+									c.Replace(x.X)
+								} else {
+									c.Replace(mkNot(x.X))
+								}
+								changed = true
+							}
+						}
+					}
+				case *ast.UnaryExpr:
+					if x.Op == token.NOT {
+						switch in := unparen(x.X).(type) {
+						case *ast.UnaryExpr:
+							if in.Op == token.NOT { // !!b
+								c.Replace(in.X)
+								changed = true
+							}
+						case *ast.BinaryExpr:
+							if op, ok := negCmp[in.Op]; ok && notFloat(in.X) && notFloat(in.Y) { // !(a < b) → a >= b
+								in.Op = op
+								c.Replace(in)
+								changed = true
+							} else if in.Op == token.LAND || in.Op == token.LOR { // De Morgan
+								op := token.LOR
+								if in.Op == token.LOR {
+									op = token.LAND
+								}
+								nb := &ast.BinaryExpr{X: mkNot(in.X), OpPos: in.OpPos, Op: op, Y: mkNot(in.Y)}
+								info.Types[nb] = types.TypeAndValue{Type: boolT}
+								c.Replace(nb)
+								changed = true
+							}
+						}
+					}
+				}
+				return true
+			})
+			if nf, ok := res.(*ast.File); ok {
+				pk.Syntax[i] = nf
+			}
+		}
+		if !changed {
+			break
+		}
+	}
+}
+
+func unparen(e ast.Expr) ast.Expr {
+	for {
+		p, ok := e.(*ast.ParenExpr)
+		if !ok {
+			return e
+		}
+		e = p.X
+	}
+}
+
+// pureExpr: identifiers, selectors, index expressions with pure operands (no calls): evaluating twice is the same.
+func pureExpr(e ast.Expr) bool {
+	pure := true
+	ast.Inspect(e, func(n ast.Node) bool {
+		switch n.(type) {
+		case *ast.CallExpr, *ast.UnaryExpr, *ast.FuncLit:
+			pure = false
+		}
+		return true
+	})
+	return pure
 }
 
 // Pkg returns a package of the module by its path relative to the module root
